@@ -86,33 +86,38 @@ def set_decimal_config() -> None:
         scale: Number of decimal places
     """
     global DECIMAL_WIDTH, DECIMAL_SCALE
-    DECIMAL_WIDTH = int(os.getenv(DECIMAL_WIDTH_ENV_VAR, DECIMAL_WIDTH))
-    DECIMAL_SCALE = int(os.getenv(DECIMAL_SCALE_ENV_VAR, DECIMAL_SCALE))
+    # Read into locals and validate before touching the module globals: a rejected setting
+    # must not leak into later runs, and an unset variable means the documented default.
+    width = int(os.getenv(DECIMAL_WIDTH_ENV_VAR, DEFAULT_DECIMAL_WIDTH))
+    scale = int(os.getenv(DECIMAL_SCALE_ENV_VAR, DEFAULT_DECIMAL_SCALE))
 
-    if DECIMAL_WIDTH == DISABLE_VALUE:
-        DECIMAL_WIDTH = MAX_DECIMAL_WIDTH
-    if DECIMAL_SCALE == DISABLE_VALUE:
-        DECIMAL_SCALE = MAX_DECIMAL_SCALE
+    if width == DISABLE_VALUE:
+        width = MAX_DECIMAL_WIDTH
+    if scale == DISABLE_VALUE:
+        scale = MAX_DECIMAL_SCALE
 
-    if DECIMAL_SCALE < MIN_DECIMAL_SCALE or DECIMAL_SCALE > MAX_DECIMAL_SCALE:
+    if scale < MIN_DECIMAL_SCALE or scale > MAX_DECIMAL_SCALE:
         raise RunTimeError(
             code="0-4-1-1",
             env_var=DECIMAL_SCALE_ENV_VAR,
-            value=DECIMAL_SCALE,
+            value=scale,
             min_value=MIN_DECIMAL_SCALE,
             max_value=MAX_DECIMAL_SCALE,
             disable_value=DISABLE_VALUE,
         )
 
-    if DECIMAL_WIDTH < MIN_DECIMAL_WIDTH or DECIMAL_SCALE > MAX_DECIMAL_WIDTH:
+    if width < MIN_DECIMAL_WIDTH or width > MAX_DECIMAL_WIDTH:
         raise RunTimeError(
             code="0-4-1-1",
             env_var=DECIMAL_WIDTH_ENV_VAR,
-            value=DECIMAL_WIDTH,
+            value=width,
             min_value=MIN_DECIMAL_WIDTH,
             max_value=MAX_DECIMAL_WIDTH,
             disable_value=DISABLE_VALUE,
         )
+
+    DECIMAL_WIDTH = width
+    DECIMAL_SCALE = scale
 
 
 # =============================================================================
